@@ -174,7 +174,7 @@ prop("C06", level="other",
                 "with the relation; files without tags must be rejected. (3) REGEX AS DATA, per-line language lemmas: on every run the two line regexes are obtained from the current source (the real functions run once on the empty "
                 "text with re.compile intercepted), parsed with CPython's re._parser and translated to SMT-LIB RegLan; proved for ALL component names over letters / digits / '_' / '.' (dotted names included), all arrow texts and "
                 "aliases over \\w+: each of the 10 documented arrow forms ([a] --> [b], [a] -> [b], a --> b, [a] -text-> [b], a -> [b] and the five mirrored <- forms) is matched as a whole line by the dependency regex, each of the 6 "
-                "declaration forms (component a, [a], component [a], each with 'as alias') by the declaration regex. NOT proved: which text the capture groups bind (the lemmas were stated -- every decomposition of the whole "
+                "declaration forms (component a, [a], component [a], each with 'as alias') by the declaration regex. Direction (10 lemmas): a right-arrow line is matched by the first alternative (dependor left) and NOT by the second (over-approximated language), a left-arrow line conversely, so the groups of the other alternative are None. NOT proved: which text the capture groups bind (the lemmas were stated -- every decomposition of the whole "
                 "line binds dependor / dependee to the names -- but the word equations time out on both solvers; left out), and the choice among several matches in a multi-line text.",
      level_note=_BND_NOTE + "Whole-file re.finditer tokenisation is outside SMT regex theories (DESIGN section 7). Assumed: open/read, str.strip (an uninterpreted function), re.compile / re.search / "
                 "re.finditer / Match.group as uninterpreted functions of pattern text, flags and text. With two declarations of ONE alias for different components the alias map (hence the parse result) "
